@@ -30,6 +30,7 @@ func profileKnobs(profile string) knobs {
 	case "c03":
 		k.pMD, k.pHdrCalls, k.pCancel, k.pCreds = 0.95, 0.7, 0.2, 0.25
 		k.pOuterBlank = 0.08
+		k.pUnenc = 0.02 // a first response that cannot be encoded leaves the headers unsent
 	case "c04":
 		k.pCancel, k.pDeadline, k.pSleep, k.pWaitCtx, k.pClosure, k.pAdvance = 0.6, 0.4, 0.3, 0.2, 0.5, 0.1
 	case "c05":
